@@ -1,5 +1,5 @@
 """C04 Client-to-server packets are acted on exactly once, in order, by type."""
-from vf.rt import P, cond, verdict, fail
+from vf.rt import P, cond, verdict, fail, untraced
 from vf.props.common import mk, packets_of, frames_packets, WsPeer, SIM_STUBS, SIM_OUTSIDE, blocked_in_close_join
 
 PROP = 'C04'
@@ -303,6 +303,66 @@ def websocket_frames(fl: int, ah: int, upgraded: bool, n: int, t0: int, k0: int,
     """
     # first frame: any type 0-9 / any table payload (text, JSON, binary frame); second frame from the type table
     return verdict(_dispatch_ws(fl, bool(ah), upgraded, [(t0, k0), (_T3[b], 0)][:n]))
+
+
+def _dispatch_mid_upgrade(fl, ah, spec):
+    """A POST that reaches a session in the middle of the upgrade handshake (probe answered, UPGRADE not yet sent)."""
+    sut = mk(fl, async_handlers=ah)
+    try:
+        sut.open('polling')
+        sut.settle()
+        sid = sut.sids()[0]
+        u = sut.ws_upgrade(sid)
+        sut.settle()
+        u.peer.send('2probe')
+        sut.settle()
+        if u.peer.frames[:1] != ['3probe']:
+            return fail(PROP, 'SETUP', 'probe not answered')
+        wires = [_wire(t, k) for t, k in spec]
+        pkts = [(t, w[1]) for (t, k), w in zip(spec, wires)]
+        body = '\x1e'.join(w[0] for w in wires)
+        prefix, allm, pongs, ups, ending = _reference(pkts)
+        n0 = len(sut.events)
+        post = sut.post(sid, body)
+        sut.settle()
+        st = dict(flavour=sut.flavour, ending=ending, handlers='async' if ah else 'sync', mid_upgrade=True)
+        got = [a for kind, s_, a in sut.events[n0:] if kind == 'message']
+        if not _events_ok(got, prefix, allm, not ah, ending):
+            return fail(PROP, 'MESSAGE-EVENTS', 'mid-upgrade POST %r -> message events %r, expected %r' % (body, got, prefix), **st)
+        if post.done and post.exc is None and ending is None and sut.status(post) != 200:
+            return fail(PROP, 'POST-STATUS', 'mid-upgrade POST %r answered %r' % (body, sut.status(post)), **st)
+        disc = [1 for kind, s_, a in sut.events[n0:] if kind == 'disconnect']
+        if ending is None and disc:
+            return fail(PROP, 'SPURIOUS-END', 'mid-upgrade POST %r ended the session' % body, **st)
+        if ending is not None and len(disc) != 1:
+            return fail(PROP, 'SESSION-END', 'mid-upgrade POST %r: %d disconnect events' % (body, len(disc)), **st)
+        if ending is None:
+            # the upgrade can still be completed and the session then works on WebSocket
+            u.peer.send('5')
+            sut.settle()
+            n1 = len(sut.events)
+            u.peer.send('4still')
+            sut.settle()
+            if [a for kind, s_, a in sut.events[n1:] if kind == 'message'] != ['still']:
+                return fail(PROP, 'SESSION-ALIVE', 'session unusable after a mid-upgrade POST %r' % body, **st)
+        return ''
+    finally:
+        sut.close()
+
+
+@cond(quick=dict(timeout=120), thorough=dict(timeout=600))
+def mid_upgrade_post(fl: int, ah: bool, t0: int, k0: int, b: int, n: int) -> str:
+    """
+    pre: 0 <= fl <= 1 and 1 <= n <= 2 and 0 <= t0 <= 9 and 0 <= b < len(_T1)
+    pre: ((t0 == 4 and 0 <= k0 <= len(PAY)) or (t0 != 4 and k0 == 0))
+    post: _ == ''
+    """
+    spec = [(t0, k0), (_T1[b], 0)][:n]
+    return verdict(untraced(_mid, fl, ah, t0, k0, b, n))
+
+
+def _mid(fl, ah, t0, k0, b, n):
+    return _dispatch_mid_upgrade(fl, ah, [(t0, k0), (_T1[b], 0)][:n])
 
 
 def _refused(fl, kind, n, lim):
